@@ -265,20 +265,30 @@ def record_reader(ctx, R, roles, T, rule="REC"):
 
 
 def _stat_only(ctx, f, rn, T, cid):
+    """Do the must-facts at rn say that the record id is STAT?  Flags (`read_data = id != STAT`, or a flag set to a constant in
+    each arm of `if id == STAT`) are followed through their terms."""
     df = ctx.df(f)
-    g = ctx.cfg(f)
-    # some dominating test must establish read_data false where read_data = (command_id != STAT)
+    from .c06 import eval_dump
+
+    def says_stat(t, pol):
+        """term t having truth value pol implies id == STAT"""
+        if t[0] == "un" and t[1] == "not":
+            return says_stat(t[2], not pol)
+        if t[0] == "cond":
+            return says_stat(t[1], pol)
+        if t[0] == "cmp" and len(t) == 4 and {t[1], t[3]} == {cid, ("c", b"STAT")}:
+            return (t[2] == ("c", "Eq") and pol) or (t[2] == ("c", "NotEq") and not pol)
+        if t[0] == "ite" and t[2][0] == "c" and t[3][0] == "c" and isinstance(t[2][1], bool) and isinstance(t[3][1], bool) and t[2][1] != t[3][1]:
+            # a flag: True in one arm, False in the other
+            return says_stat(t[1], pol if t[2][1] else not pol)
+        return False
     for fa in df.facts(rn):
-        if fa[0][0] == "truthy" and fa[1] is False:
-            from .c06 import eval_dump
-            e = eval_dump(fa[0][1])
-            t = T.term(f, rn, e)
-            if t == ("cmp", cid, ("c", "NotEq"), ("c", b"STAT")):
+        if fa[0][0] == "truthy":
+            if says_stat(T.term(f, rn, eval_dump(fa[0][1])), fa[1]):
                 return True
-        if fa[0][0] == "eq" and fa[1] is True:
-            from .c06 import eval_dump
+        if fa[0][0] == "eq":
             a, b = T.term(f, rn, eval_dump(fa[0][1])), T.term(f, rn, eval_dump(fa[0][2]))
-            if {a, b} == {cid, ("c", b"STAT")}:
+            if says_stat(("cmp", a, ("c", "Eq"), b), fa[1]):
                 return True
     return False
 
